@@ -24,12 +24,7 @@ impl<'a> RawComponents<'a> {
 //@prove utils.path.RawComponents.next
 }
 impl<'p> Ancestors<'p> {
-    spec fn wf(&self) -> bool {
-        match self.state {
-            AncestorsIterState::Middle(idx) => idx <= self.inner@.len(),
-            _ => true,
-        }
-    }
+//@include prelude/ancestors_spec.rs
 //@prove utils.path.Ancestors.next
 }
 //@item src/utils/path.rs :: trait PathIterExt
